@@ -156,7 +156,7 @@ func runC13(c *Ctx) {
 					return false, false
 				})
 				g, path := Guarded(af.Blocks[0], in, pass, noReturnCommands)
-				c.Check(okEl && g && len(pass) > 0, "R1", "doFsckObjects:lists-only-failed", p.InstrPos(in), "an oid is listed as corrupt only after a negative verdict for that pointer", "an oid can be listed as corrupt (and later moved away) without a negative verdict for it: "+path)
+				c.Check(okEl && g && nonVacuous(pass), "R1", "doFsckObjects:lists-only-failed", p.InstrPos(in), "an oid is listed as corrupt only after a negative verdict for that pointer", "an oid can be listed as corrupt (and later moved away) without a negative verdict for it: "+path)
 			}
 		}
 		// a negative verdict always lists: cut the append block; from the false edge the closure must not return
@@ -312,7 +312,7 @@ func runC13(c *Ctx) {
 					continue
 				}
 				g, path := Guarded(af.Blocks[0], in, pass, noReturnCommands)
-				c.Check(g && len(pass) > 0, "R4", "pointer-report:"+kind, p.InstrPos(in), "reported only for its own cause", kind+" can be reported without its cause having been established: "+path)
+				c.Check(g && nonVacuous(pass), "R4", "pointer-report:"+kind, p.InstrPos(in), "reported only for its own cause", kind+" can be reported without its cause having been established: "+path)
 			}
 		}
 		// other errors abort
